@@ -15,7 +15,7 @@ from typing import Dict, List, Optional, Set, Tuple
 
 from ..astq import assignments_to, call_name, names_in, occ, stmt_of, in_subtree
 from ..logic import consistent_with, guard_clauses, guards
-from ..model import AnalysisError, Func, ancestors, first_line, is_self_attr, norm, walk_local, parent
+from ..model import AnalysisError, Func, const_value, ancestors, first_line, is_self_attr, norm, walk_local, parent
 from ..report import Ob, rule
 from .index_state import fields_of
 
@@ -236,6 +236,71 @@ def exact_index_answers(ctx):
                  ("index summary is EXACT" if S == EXACT else "consumer re-evaluates the query on selected rows")
                  if ok else f"index summary is {S} and the selected rows are used without re-evaluating the query",
                  cf.loc(), {"summary": S, "sanitises": san})
+
+
+@rule("C01.R10", ["C01", "C02", "C03"], min_instances=3, design="3.1")
+def whole_index_shortcut_only_picks_the_path(ctx):
+    """The `every indexed position is a candidate` shortcut of a consumer only switches to the scan path (which evaluates the query on every row); it sets no other flag -- candidates are not matches."""
+    cons = index_consumers(ctx)
+    seen = set()
+    n = 0
+    for cf, _ in cons:
+        if cf.qual in seen:
+            continue
+        seen.add(cf.qual)
+        prop = PROP_OF_CONSUMER.get(cf.name, "C01")
+        for t in walk_local(cf.node):
+            if not (isinstance(t, ast.If) and isinstance(t.test, ast.Compare) and len(t.test.ops) == 1
+                    and isinstance(t.test.ops[0], ast.Eq)):
+                continue
+            a, b = norm(t.test.left), norm(t.test.comparators[0])
+            if not (a.startswith("len(") and b.startswith("len(") and ("_index" in a + b) and ("items" in a + b)):
+                continue
+            n += 1
+            flags = []
+            other = []
+            for st in t.body:
+                if isinstance(st, ast.Assign) and len(st.targets) == 1 and isinstance(st.targets[0], ast.Name) \
+                        and const_value(st.value) is False:
+                    flags.append(st.targets[0].id)
+                elif isinstance(st, (ast.Return, ast.Pass)) or (isinstance(st, ast.Expr) and isinstance(st.value, ast.Call)):
+                    continue  # answering from the candidates is judged by `consumes index result as exact`
+                else:
+                    other.append(st)
+            # the cleared flag must be the one that gates the index loop
+            gate_ok = all(any(isinstance(i, ast.If) and norm(i.test) == fl_ for i in walk_local(cf.node)) for fl_ in flags)
+            ok = not other and gate_ok
+            yield Ob("C01.R10", [prop], f"{cf.qual} | whole-index shortcut{occ(cf, t)}", ok,
+                     "only selects the scan path" if ok else
+                     (f"`{norm(other[0], 60)}` inside the shortcut: the scan that follows no longer evaluates the query, although the "
+                      f"index hands out candidates, not matches (e.g. for a negated field query)" if other else
+                      f"flag(s) {flags} do not gate the index loop"), ctx.prog.loc(t))
+    if n < 3:
+        raise AnalysisError("C01.R10", f"expected >=3 whole-index shortcuts in the consumers of Index.search, found {n}")
+
+
+@rule("C01.R11", ["C01"], min_instances=1, design="3.1")
+def get_answers_none_when_nothing_matches(ctx):
+    """`TinyFlux.get` returns its result variable, which is None when nothing matched: after the search loops no attribute of it is read except under a test that it is set."""
+    f = ctx.prog.func("TinyFlux.get", "C01.R11")
+    rets = [r for r in walk_local(f.node) if isinstance(r, ast.Return) and isinstance(r.value, ast.Name)]
+    if not rets:
+        raise AnalysisError("C01.R11", "TinyFlux.get does not return a result variable")
+    rv = rets[-1].value.id
+    if not any(const_value(v) is None for v in assignments_to(f, rv)):
+        raise AnalysisError("C01.R11", f"result variable `{rv}` of TinyFlux.get is not initialised to None")
+    bad = []
+    n = 0
+    for x in walk_local(f.node):
+        if isinstance(x, ast.Attribute) and isinstance(x.value, ast.Name) and x.value.id == rv \
+                and not any(isinstance(a_, (ast.For, ast.While)) for a_ in ancestors(x)):
+            n += 1
+            cl = guard_clauses(guards(x))
+            if not any(len(c) == 1 and next(iter(c)) in ((f"truthy({rv})", True), (f"is(None,{rv})", False)) for c in cl):
+                bad.append(f"`{norm(x)}` (line {x.lineno}) is read although `{rv}` is None when no point matched: get() raises "
+                           f"AttributeError instead of answering None")
+    yield Ob("C01.R11", ["C01"], f"{f.qual} | result is only dereferenced when set", not bad,
+             "; ".join(bad[:2]) if bad else f"{n} attribute read(s) of `{rv}` after the search, each under `if {rv}`", f.loc())
 
 
 def leaves(ctx) -> Dict[str, Func]:
